@@ -109,8 +109,9 @@ PROPS = {
         "text, and the token table entries are checked against the template source.",
         TAL_BASIC + S_TALES + S_INTERP + [K("k3::S-OnError-keep"), K("k3::S-I18nTarget"),
                                             K("k3::S-UseExternal"), K("k3::S-MacroUseInternal"),
-                                            K("k3::S-MacroUseInternal-after-expr")],
-        ["BaseTemplate.render exception flow and create_formatted_exception (pending)",
+                                            K("k3::S-MacroUseInternal-after-expr"),
+                                            K("template.py::BaseTemplate.render")],
+        ["create_formatted_exception itself (dynamic class creation; outside the subset)",
          "ExceptionFormatter record order (pending)"]),
     "C03": {
         "technique": TECH + "; REGEX-STRUCT (facts about the lexer/dissection patterns proved on their "
